@@ -28,6 +28,11 @@ Theorem C08_decode_sound : forall s v rest, wf_bytes s = true ->
   decode s = Some (v, rest) -> exists g, spec_decode g s = Some (v, rest).
 Proof. exact decode_sound. Qed.
 
+(* no strict prefix of a serialised value deserialises: a truncated file or stream is always an error *)
+Theorem C08_truncated_rejected : forall v e p t,
+  spec_encode v = Some e -> e = p ++ t -> t <> [] -> wf_bytes e = true -> decode p = None.
+Proof. exact truncated_rejected. Qed.
+
 (* non-vacuity: a non-trivial value meets the hypotheses, and the decoder does reject things *)
 Example C08_example_encode :
   spec_encode (Cons (Atom [1;2;3]) (Cons (Atom [200]) (Atom []))) = Some [255; 131; 1; 2; 3; 255; 129; 200; 128].
